@@ -6,7 +6,9 @@
 //! Stage 1 (sources): typed constructors / From / FromIterator (`vcore::mk`), builders'
 //! finish() / finish_cloned() incl. builder reuse, new_null_array, new_empty_array,
 //! make_array(to_data), ArrayData::new_null, the layout mutators (`vcore::mutate`),
-//! ArrayData::slice, CSV / JSON readers on generated text.
+//! ArrayData::slice, CSV / JSON readers on generated text, and builder *histories*
+//! (builders.rs: all append-style operations of every builder family, exhaustively up to
+//! depth 2-3 on a fresh builder and randomly beyond, interleaved with finish / finish_cloned).
 //! Stages 2..3 (steps): filter, take, concat, interleave, zip, nullif, shift, slice,
 //! dictionary gc, union_extract, cast (arrow-cast, every castable target of the zoo),
 //! arithmetic / boolean / temporal kernels (arrow-arith), sort / sort_limit / take by sort
@@ -14,6 +16,8 @@
 //! (arrow-string), row format round trip (arrow-row), IPC stream and file round trip
 //! (arrow-ipc), CSV and JSON write -> read (arrow-csv, arrow-json), record-batch
 //! slice / project / concat_batches / filter_record_batch / take_record_batch.
+mod builders;
+
 use arrow_array::builder::*;
 use arrow_array::cast::AsArray;
 use arrow_array::types::*;
@@ -575,7 +579,7 @@ fn main() {
     let mut rng = Rng::new(args.seed);
     let mut cx = Ctx { t: Shards::create(&args.out, "outputs", 14), pipe: 0, arrays: 0, batches: 0, skipped_big: 0, errors: 0, panics: 0, panic_msgs: Default::default(), max_rows: 33 };
     let types = mk::all_types();
-    let rounds = args.scale(4, 60);
+    let rounds = args.scale(3, 60);
     for round in 0..rounds {
         cx.max_rows = if round % 4 == 3 { 64 } else { 24 };
         for dt in &types {
@@ -613,6 +617,19 @@ fn main() {
             cx.t.next_episode();
         }
     }
+    // builder histories: every public append-style operation of every builder family
+    let st = {
+        let cxr = &mut cx;
+        builders::run(&mut rng, args.scale(6, 150), |api, a| {
+            cxr.pipe += 1;
+            cxr.produced(api, 1, a);
+            cxr.t.next_episode();
+        })
+    };
+    for (m, c) in st.panic_msgs.iter().take(12) {
+        println!("BUILDER-PANIC x{c}: {m}");
+    }
+    println!("BUILDERS histories={} op_panics={}", st.histories, st.op_panics);
     // panics inside kernels on valid inputs: observations for the report, not outputs
     for (m, c) in cx.panic_msgs.iter().take(12) {
         println!("KERNEL-PANIC x{c}: {m}");
